@@ -213,3 +213,45 @@ func H01bytes() {
 	}
 }
 
+
+// H01dev: read access to the deviation entries a processed module carries (Entry.Deviations is
+// part of what comes back): every accessor returns.
+func H01dev() {
+	kind := []string{"add { default a; }", "not-supported;", "replace { type int8; }", "delete { units u; }"}[symChoice(4)]
+	target := []string{"/m:x", "/m:missing", "/zz:x"}[symChoice(3)]
+	m := `module m { namespace "urn:m"; prefix m; leaf x { type string; } container c { leaf y { type string; } } deviation ` + target + ` { deviate ` + kind + ` } }`
+	note(m)
+	ms, lerrs := hLoad(m)
+	if len(lerrs) > 0 {
+		reach("returned")
+		return
+	}
+	errs := ms.Process()
+	_ = hErrs(errs)
+	e := ToEntry(ms.Modules["m"])
+	for _, d := range e.Deviations {
+		if d == nil {
+			continue
+		}
+		_ = d.Find("/m:x")
+		_ = d.Find("../x")
+		_ = d.Find("c/y")
+		_ = d.Path()
+		_ = d.Namespace()
+		_ = d.ReadOnly()
+		_, _ = d.InstantiatingModule()
+		_ = d.Modules()
+		_ = d.GetErrors()
+		_ = d.DefaultValues()
+		for _, dv := range d.Deviate {
+			for _, x := range dv {
+				if x != nil {
+					_ = x.Path()
+					_ = x.Find("/m:x")
+					_ = x.Namespace()
+				}
+			}
+		}
+	}
+	reach("returned")
+}
